@@ -45,12 +45,12 @@ REQUIRED_COUNTERS = {
               "branch_EvaluatedDensity": 1200, "branch_Likelihood": 350, "posterior_decomposition_checked": 180,
               "bayesianproblem_checked": 300, "original_intact_checked": 60, "assembled_checked": 120,
               "history_recheck": 170, "partial_conditioning_checked": 120},
-    "thorough": {"metamorphic_checked": 260000, "absolute_joint_checked": 3400, "absolute_factor_checked": 35000,
-                 "malformed_refused": 100000, "branch_Posterior": 24000, "branch_Distribution": 45000,
-                 "branch_MultipleLikelihoodPosterior": 18000, "branch_Stacked": 11000, "branch_JointDistribution": 170000,
-                 "branch_EvaluatedDensity": 22000, "branch_Likelihood": 6500, "posterior_decomposition_checked": 3400,
-                 "bayesianproblem_checked": 5600, "original_intact_checked": 1100, "assembled_checked": 2200,
-                 "history_recheck": 3200, "partial_conditioning_checked": 2200},
+    "thorough": {"metamorphic_checked": 170000, "absolute_joint_checked": 2200, "absolute_factor_checked": 23000,
+                 "malformed_refused": 66000, "branch_Posterior": 16000, "branch_Distribution": 30000,
+                 "branch_MultipleLikelihoodPosterior": 12000, "branch_Stacked": 7000, "branch_JointDistribution": 110000,
+                 "branch_EvaluatedDensity": 14000, "branch_Likelihood": 4300, "posterior_decomposition_checked": 2200,
+                 "bayesianproblem_checked": 3700, "original_intact_checked": 700, "assembled_checked": 1500,
+                 "history_recheck": 2100, "partial_conditioning_checked": 1400},
 }
 BUDGET_S = {"quick": 240.0, "thorough": 2400.0}
 
@@ -329,7 +329,7 @@ def _alias_rename(R, nodes):
         return
 
 def cases(tier, seed):
-    n = 160 if tier == "quick" else 3000
+    n = 160 if tier == "quick" else 2000
     out = []
     for i in range(n):
         R = core.rng_for(seed, PROPERTY, tier, i)
